@@ -581,6 +581,12 @@ theorem delivery_through_recur {mk : List Bytes → Option Ports.Hash.Matcher} (
     cases callback port (pfx ++ path) path fld args <;> rfl
 
 
+/-- after a base dispatch of a message whose address begins with '/', the "full address" of
+    `delivery_through_recur` is literally the address of the message -/
+theorem full_address_base (L0 r : Bytes) :
+    Ports.rootLoc true L0 ++ Ports.rootAddr true (47 :: r) = 47 :: r := by
+  simp [Ports.rootLoc, Ports.rootAddr, Ports.stripSlash]
+
 /-! ## the comparison structures satisfy the order hypotheses -/
 
 -- `intOps_ordered : Ordered intOps (fun _ => True)` and
